@@ -57,6 +57,7 @@ type End struct {
 	cmu     sync.Mutex
 	closed  bool
 	chunker func(avail int) int
+	gate    chan struct{}
 
 	// OnClose is called once when this end is closed locally.
 	OnClose func()
@@ -110,9 +111,23 @@ func (e *End) Closed() bool {
 	return e.closed
 }
 
+// SetReadGate makes every Read of this end wait until the channel is closed
+// (a peer that does not read); nil removes the gate.
+func (e *End) SetReadGate(g chan struct{}) {
+	e.cmu.Lock()
+	e.gate = g
+	e.cmu.Unlock()
+}
+
 func (e *End) Read(b []byte) (int, error) {
 	if len(b) == 0 {
 		return 0, nil
+	}
+	e.cmu.Lock()
+	g := e.gate
+	e.cmu.Unlock()
+	if g != nil {
+		<-g
 	}
 	p := e.rd
 	p.mu.Lock()
